@@ -32,15 +32,25 @@ class Harness:
         self.nocover = meta.get("nocover", "") in ("1", "true", "yes")
         self.must_panic = meta.get("must_panic", "") in ("1", "true", "yes")
         self.may_panic = meta.get("may_panic", "") in ("1", "true", "yes")
+        # aggregated properties (C11 totality, C15 routes) are attached to most harnesses; their QUICK
+        # tier runs only the harnesses whose primary (first) property they are, or that name them in
+        # `core=`; documented-panic harnesses are always part of C11's core.  Thorough runs all.
+        self.core = [c.strip() for c in meta.get("core", "").split(",") if c.strip()]
+        if (self.must_panic or self.may_panic) and "C11" in self.props and "C11" not in self.core:
+            self.core.append("C11")
 
     @property
     def modname(self):
         return "__verif_" + os.path.basename(self.file)[:-3]
 
-    def in_tier(self, tier):
+    def in_tier(self, tier, prop=None):
         if tier == "thorough":
             return True
-        return self.tier == "quick"
+        if self.tier != "quick":
+            return False
+        if prop in ("C11", "C15") and self.props and self.props[0] != prop and prop not in self.core:
+            return False
+        return True
 
 
 def parse_file(path):
